@@ -13,7 +13,7 @@ MANIFEST = dict(
     text="Events.tla holds the mechanism of sqlalchemy.event (per-class _clslevel deques filled through walk_subclasses/update_subclass, "
          "_EmptyListener/_ListenerCollection/_JoinedListener per instance, only_once/named/retval wrapper chain, both registry maps) next to an "
          "abstract log of registrations in force; TLC checks exhaustively (Base<-A<-B plus a late class, 2 instances incl. a joined one, 3 functions, "
-         "all walks of 4 steps, thorough: all 16 option combinations and 5 steps over 2 functions) that what the mechanism would call is exactly what the log says: every registered listener of the "
+         "all walks of 4 steps, thorough adds all 16 option combinations at 3 steps and all walks of 5 steps over 2 functions) that what the mechanism would call is exactly what the log says: every registered listener of the "
          "target and its ancestors once, class-level first, insert=True first, registration order otherwise, once-listeners at most once, nothing "
          "after remove, no dangling registry entry.  Every labelled edge of that graph plus TLC-simulated walks of 9-10 steps are replayed on a private "
          "Events/target hierarchy comparing calls (ids, args, named kwargs, retval threading), the collections, both registry maps and event.contains() "
@@ -198,13 +198,15 @@ def main(chk):
     nproc = tlc.NPROC
     # ------------------------------------------------------------------ 1. Events.tla: exhaustive model checking
     base = dict(NF=3, InstCls="{1,2,3,4}", CPars="{1,2,3}", BadRm="{1,11}", JoinedXoBroken=tree["joined_xo_broken"])
+    # dumps = graphs that are model-checked AND replayed edge by edge: (constants, option combinations, shards, extra random walks)
     if quick:
         deep = None
-        dump_consts, dump_styles, nshards, nrand = dict(base, MaxDepth=5), "StylesQuick", 8, 20      # MaxDepth 5 = walks of 4 steps
+        dumps = [(dict(base, MaxDepth=5), "StylesQuick", 8, 20)]                       # MaxDepth 5 = all walks of 4 steps
         sim_num, sim_depth = 120, 9
     else:
         deep = (dict(base, NF=2, MaxDepth=6), "StylesQuick")     # all walks of 5 steps over two functions (multi-worker run, no dump)
-        dump_consts, dump_styles, nshards, nrand = dict(base, MaxDepth=5), "StylesFull", 16, 200
+        dumps = [(dict(base, MaxDepth=5), "StylesQuick", 8, 200),
+                 (dict(base, MaxDepth=4), "StylesFull", 8, 200)]                       # all 16 option combinations, 3 steps
         sim_num, sim_depth = 1500, 10
     # ExecOnceRuns (exec_once works on every target, joined ones included) is part of the property set unless the tree still has
     # the _JoinedListener defect, in which case it is checked separately below (and fails)
@@ -227,10 +229,15 @@ def main(chk):
             chk.machinery("calibration: probe says exec_once on a joined listener is broken but TLC finds ExecOnceRuns to hold")
     lap("events_tlc")
     # ------------------------------------------------------------------ 2. every edge, replayed (sharded by the first step)
-    jobs = [(i, nshards, dump_consts, dump_styles, chk.work + "/dump", chk.seed, nrand, props) for i in range(nshards)]
+    res = []
     ctx = mp.get_context("fork")
-    with ctx.Pool(max(1, min(nshards, nproc))) as pool:
-        res = pool.map(_shard, jobs, chunksize=1)
+    for di, (dump_consts, dump_styles, nshards, nrand) in enumerate(dumps):
+        jobs = [(i, nshards, dump_consts, dump_styles, chk.work + "/dump%d" % di, chk.seed, nrand, props) for i in range(nshards)]
+        with ctx.Pool(max(1, min(nshards, nproc)), maxtasksperchild=1) as pool:
+            part = pool.map(_shard, jobs, chunksize=1)
+        for x in part:
+            x["graph"] = "%s/%d" % (dump_styles, dump_consts["MaxDepth"] - 1)
+        res += part
     cov, detail = {}, {}
     sdig, edig = set(), set()
     for x in res:
@@ -304,12 +311,12 @@ def main(chk):
              evaluations=sum(x["steps"] for x in res) + ssteps + xsteps,
              distinct_nontrivial=sum(x["nontriv"] for x in res) + sum(1 for e in xg.edges if e[1]["p"] in ("acq", "mset", "opop")),
              phase_wall_s=phase, action_coverage=cov, option_coverage=detail, step_coverage=pcs, samples=samples, exhaustive=True, tree=tree,
-             shards=[dict(shard=x["shard"], edges=x["edges"], states=x["states"], dump_wall=x["dump_wall"]) for x in res],
-             rule="histories: every labelled edge of the Events.tla graph (constants %s, %s, sharded by first step) lies on a walk from Init that is "
+             shards=[dict(graph=x["graph"], shard=x["shard"], edges=x["edges"], states=x["states"], dump_wall=x["dump_wall"]) for x in res],
+             rule="histories: every labelled edge of the Events.tla graph(s) %s (sharded by first step) lies on a walk from Init that is "
                   "replayed on a fresh private event hierarchy, plus %d simulated walks of <= %d steps; non-trivial = Dispatch/ExecOnce edges that call "
-                  ">= 2 listeners.  schedules: every edge of the %d-thread ExecOnce.tla interleaving graph%s replayed by the baton scheduler; "
+                  ">= 2 listeners.  schedules: every edge of the %d-thread ExecOnce.tla interleaving graph replayed by the baton scheduler; "
                   "non-trivial = lock acquisitions, mutex publications and once-pops" % (
-                      dump_consts, dump_styles, len(swalks), sim_depth, nt, ""),
+                      ["%s, %d steps" % (d[1], d[0]["MaxDepth"] - 1) for d in dumps], len(swalks), sim_depth, nt),
              checker_cmd="tlc Events.tla (VIEW View, CONSTRAINT Depth, ACTION_CONSTRAINT EmitShard); tlc -simulate Events.tla; tlc ExecOnce.tla"),
         assumptions=["a function is registered on at most one target at a time (same function twice on one target is undefined by the statement)",
                      "_Dispatch._update at most once per history; _join only at instance creation, parent not itself joined",
@@ -318,4 +325,4 @@ def main(chk):
                      "schedules: thread switches matter only at the shared-memory operations listed in ExecOnce.tla (line events of the anchored "
                      "functions, Lock.acquire/release, the listener body); %d threads" % nt,
                      "bounded: 3 classes + 1 late subclass, 2 instances, 3 functions, exhaustive walks <= %d steps (TLC and replay)%s" % (
-                         dump_consts["MaxDepth"] - 1, "; <= %d steps with 2 functions (TLC only)" % (deep[0]["MaxDepth"] - 1) if deep else "")])
+                         dumps[0][0]["MaxDepth"] - 1, "; <= %d steps with 2 functions (TLC only)" % (deep[0]["MaxDepth"] - 1) if deep else "")])
